@@ -78,7 +78,8 @@ theorem accessor_set (sd : StructDef) (idx : Nat) (f : Field) (gs : List GVal)
 
 /-- the default constructor pre-populates exactly the fields that declare a default. -/
 theorem default_ctor_fields (sd : StructDef) (h : sd.fields.any (·.dflt.isSome) = true) :
-    defaultCtor sd = some (.struct (sd.fields.map fun f => f.dflt.getD .nil)) := by
+    defaultCtor sd = some (.struct (sd.fields.map fun f =>
+      f.dflt.getD (if f.req && f.ty.isPrim then zeroOf f.ty else .nil))) := by
   simp [defaultCtor, h]
 
 end ThriftVerif.Schema
